@@ -256,6 +256,46 @@ def main():
         if not sy2.generable or len(a) != len(b) or not all(close(x[0], y[0], 1e-9) and close(x[1], y[1], 1e-9) for x, y in zip(a, b)):
             ck.fail("print-reparse-changes-masses", {"text": text, "system_mass": None if M is None else float(M)}, f"{a} -> {str(sy)} -> {b}")
     ck.count("print_reparse_systems", n_sys)
+    # ---- trace and astronomic scales (Python prints floats below 1e-4 and from 1e16 on with a signed exponent): systems with ONE source for
+    # the system mass (all components absolute, or percentages + caller mass), so that no tolerance of the consistency checks is involved
+    for _ in range(12 if quick else 200):
+        n = rnd.randint(1, 4)
+        scale = rnd.choice([1e-5, 1e-5, 2.5e-7, 1e16, 3e17, 1.0])
+        if rnd.random() < 0.6:
+            vals = [float(rnd.randint(1, 90)) * scale for _ in range(n)]
+            text = "".join(SMI[i % len(SMI)] + f".|{v!r}|" for i, v in enumerate(vals))
+            M, want_abs = None, vals
+        else:
+            cuts = sorted(rnd.sample(range(1, 100), n - 1)) if n > 1 else []
+            fr = [float(b - a) for a, b in zip([0] + cuts, cuts + [100])]
+            M = float(rnd.randint(1, 9)) * scale
+            text = "".join(SMI[i % len(SMI)] + f".|{f!r}%|" for i, f in enumerate(fr))
+            want_abs = [f / 100 * M for f in fr]
+        inp = {"text": text, "system_mass": M}
+        ck.evaluations += 1
+        ck.count("extreme-scale-systems")
+        with warnings.catch_warnings():
+            warnings.simplefilter("ignore")
+            try:
+                sy = gbigsmiles.System(text, M)
+                gen = bool(sy.generable)
+            except Exception as exc:
+                ck.fail("determined-but-error", inp, f"{type(exc).__name__}: {exc}")
+                continue
+            if not gen:
+                ck.fail("determined-but-refused", inp, "one source for the system mass, all values positive, yet reported not generable")
+                continue
+            got = [m.mixture.absolute_mass for m in sy._molecules]
+            if not all(g is not None and close(g, w, 1e-9, 0.0) for g, w in zip(got, want_abs)):
+                ck.fail("wrong-masses", inp, f"expected absolute masses {want_abs}, got {got}")
+                continue
+            try:
+                sy2 = gbigsmiles.System(str(sy))
+                got2 = [m.mixture.absolute_mass for m in sy2._molecules] if sy2.generable else None
+            except Exception as exc:
+                got2 = f"{type(exc).__name__}: {exc}"
+            if not isinstance(got2, list) or not all(g is not None and close(g, w, 1e-9, 0.0) for g, w in zip(got2, want_abs)):
+                ck.fail("print-reparse-changes-masses", inp, f"{str(sy)} -> {got2}")
     ck.exhaustive = not quick
     ck.rule = ("all 363 assignments of {absolute, percent, unspecified} to 1-5 components x value patterns {consistent, over-100, under-100, zero, "
                "contradictory} x caller mass {absent, right, wrong} (quick: sub-sampled for 4-5 components); one case = one configuration; distinct by values")
